@@ -92,6 +92,17 @@ func replaySrvSeq(t *testing.T, s *Stream, rp *Replay) {
 		settle := time.Duration(60+(int64(dt-df)+2)*650) * time.Millisecond
 		for _, op := range ops {
 			kw, a := argsOf(op)
+			if kw == "note" && a["ip"] != "" && a["mac"] != "" { // a responder that appears at this point of the history
+				at, _ := strconv.ParseInt(a["t"], 10, 64)
+				if d := at - time.Now().UnixNano(); d > 0 {
+					time.Sleep(time.Duration(d))
+				}
+				dl, _ := strconv.ParseInt(a["delay"], 10, 64)
+				env.Resp[IPU32(parseIPField(a["ip"]))] = &Responder{MAC: unhex(a["mac"]), Delay: time.Duration(dl)}
+				s.Op(op, "ok", false)
+				mon.hist = append(mon.hist, op)
+				continue
+			}
 			if kw != "rx" {
 				continue
 			}
